@@ -629,3 +629,168 @@ Proof.
     + rewrite <- concat_firstn_map_filter. now apply H.
 Qed.
 End Orders.
+
+(* ---------------------------------------------------------------------------------------------- *)
+(* 9. placements: from a feasible assignment (decode), and from an axis (mk_asg)                    *)
+
+Lemma forall_in_app {T} (P : T -> Prop) a b :
+  (forall x, In x (a ++ b) -> P x) <-> (forall x, In x a -> P x) /\ (forall x, In x b -> P x).
+Proof.
+  split.
+  - intros H. split; intros x Hx; apply H; apply in_or_app; auto.
+  - intros [H1 H2] x Hx. apply in_app_or in Hx. destruct Hx; auto.
+Qed.
+
+Lemma flat_map_forall {A B} (f : A -> list B) l (P : B -> Prop) :
+  (forall c, In c (flat_map f l) -> P c) <-> (forall x, In x l -> forall c, In c (f x) -> P c).
+Proof.
+  split.
+  - intros H x Hx c Hc. apply H. apply in_flat_map. eauto.
+  - intros H c Hc. apply in_flat_map in Hc. destruct Hc as (x & Hx & Hc). eauto.
+Qed.
+
+(* the structural part of a feasible assignment *)
+Definition structural (s : asg) (m : nat) : Prop :=
+  leftof_binary s m /\ pos_range s m /\ total_sem s m /\ pos_sem s m.
+
+Theorem decode_placement alts s : NoDup alts -> structural s (length alts) ->
+  let axis := decode_axis alts s in
+  Permutation alts axis /\
+  (forall a, (a < length alts)%nat -> (posn_of s a < length alts)%nat /\ nth (posn_of s a) axis 0%N = nth a alts 0%N) /\
+  (forall x y, (x < length alts)%nat -> (y < length alts)%nat -> x <> y ->
+     (s (LeftOf x y) = 1 <-> (posn_of s x < posn_of s y)%nat)).
+Proof.
+  intros Hnd (Hb & Hr & Ht & Hp) axis.
+  destruct (decode_axis_spec alts s Hr (pos_injective s _ Hb Hr Ht Hp)) as [Hlen Hnth]. fold axis in Hlen, Hnth.
+  split; [|split].
+  - apply NoDup_Permutation_bis; [assumption|lia|]. intros x Hx.
+    apply (In_nth _ _ 0%N) in Hx. destruct Hx as (a & Ha & <-). destruct (Hnth a Ha) as [Hlt <-].
+    apply nth_In. lia.
+  - exact Hnth.
+  - intros x y Hx Hy Hxy. destruct (pos_order_core s _ Hb Hr Ht Hp x y Hx Hy Hxy) as [H1 _].
+    rewrite H1. unfold posn_of. pose proof (Hr x Hx). pose proof (Hr y Hy). lia.
+Qed.
+
+Lemma idxN_lt l a : In a l -> (idxN l a < length l)%nat.
+Proof.
+  induction l as [|x r IH]; intros Hin; [contradiction|]. simpl. destruct (N.eqb a x) eqn:E; [lia|].
+  apply N.eqb_neq in E. destruct Hin as [->|Hin]; [congruence|]. apply IH in Hin. lia.
+Qed.
+
+Definition posn_axis (alts axis : list N) (a : nat) : nat := idxN axis (nth a alts 0%N).
+
+Theorem axis_placement alts axis dv da : NoDup alts -> Permutation alts axis ->
+  let posn := posn_axis alts axis in
+  let s := mk_asg posn dv da in
+  (forall a, (a < length alts)%nat -> (posn a < length alts)%nat /\ nth (posn a) axis 0%N = nth a alts 0%N) /\
+  structural s (length alts) /\ trans_sem s (length alts) /\
+  (forall x y, (x < length alts)%nat -> (y < length alts)%nat -> x <> y ->
+     (s (LeftOf x y) = 1 <-> (posn x < posn y)%nat)) /\
+  decode_axis alts s = axis.
+Proof.
+  intros Hnd Hperm posn s.
+  assert (Hlen : length axis = length alts) by (symmetry; now apply Permutation_length).
+  assert (Hax : NoDup axis) by (eapply Permutation_NoDup; eauto).
+  assert (Hpos : forall a, (a < length alts)%nat ->
+            (posn a < length alts)%nat /\ nth (posn a) axis 0%N = nth a alts 0%N).
+  { intros a Ha. assert (Hin : In (nth a alts 0%N) axis) by (eapply Permutation_in; [exact Hperm|now apply nth_In]).
+    unfold posn, posn_axis. split; [rewrite <- Hlen; now apply idxN_lt|now apply idxN_nth]. }
+  assert (Hinj : forall a b, (a < length alts)%nat -> (b < length alts)%nat -> posn a = posn b -> a = b).
+  { apply (pl_posn_inj alts axis posn Hnd Hpos). }
+  destruct (mk_asg_structural posn dv da (length alts) (fun a Ha => proj1 (Hpos a Ha)) Hinj)
+    as (S1 & S2 & S3 & S4 & S5). fold s in S1, S2, S3, S4, S5.
+  split; [exact Hpos|]. split; [exact (conj S1 (conj S2 (conj S3 S4)))|]. split; [assumption|]. split.
+  - intros x y _ _ _. unfold s, mk_asg. destruct (Nat.ltb_spec (posn x) (posn y)); split; intros; try lia; discriminate.
+  - destruct (decode_axis_spec alts s S2 (pos_injective s _ S1 S2 S3 S4)) as [Hdl Hdn].
+    apply (nth_ext _ _ 0%N 0%N); [lia|]. intros q Hq. rewrite Hdl in Hq.
+    assert (Hin : In (nth q axis 0%N) axis) by (apply nth_In; lia).
+    destruct (pl_in_axis alts axis Hperm _ Hin) as (a & Ha & Ea).
+    destruct (Hpos a Ha) as [Hlt Enth]. destruct (Hdn a Ha) as [_ Ed].
+    assert (Eq : posn a = q).
+    { apply (proj1 (NoDup_nth axis 0%N) Hax); first [lia|now rewrite Enth]. }
+    assert (Ep : posn_of s a = posn a) by (unfold posn_of, s, mk_asg; lia).
+    rewrite Ep, Eq in Ed. now rewrite Ed.
+Qed.
+
+(* ---------------------------------------------------------------------------------------------- *)
+(* 10. is_single_peaked_ILP                                                                         *)
+
+Lemma feasible_sp_unfold alts p s : feasible (sp_ilp alts p) s <->
+  structural s (length alts) /\ trans_sem s (length alts) /\ (forall c, In c (cons_cstrs alts p) -> holds s c).
+Proof.
+  rewrite feasible_iff. unfold sp_ilp. cbn [i_vars i_cstrs]. unfold structural.
+  rewrite !forall_in_app, leftof_vars_sem, pos_vars_sem, trans_cstrs_sem, total_cstrs_sem, pos_cstrs_sem. tauto.
+Qed.
+
+Section PlainRows.
+Variables (alts axis : list N) (posn : nat -> nat) (s : asg).
+Hypothesis Hnd : NoDup alts.
+Hypothesis Hperm : Permutation alts axis.
+Hypothesis Hpos : forall a, (a < length alts)%nat -> (posn a < length alts)%nat /\ nth (posn a) axis 0%N = nth a alts 0%N.
+Hypothesis Hbin : leftof_binary s (length alts).
+Hypothesis Hlf : forall x y, (x < length alts)%nat -> (y < length alts)%nat -> x <> y ->
+  (s (LeftOf x y) = 1 <-> (posn x < posn y)%nat).
+
+Lemma cons_cstrs_sem p : Forall (complete_on alts) p ->
+  ((forall c, In c (cons_cstrs alts p) -> holds s c) <-> SPw_axis p axis).
+Proof.
+  intros Hc. unfold cons_cstrs. rewrite flat_map_forall, <- Forall_forall.
+  rewrite (sp_matrix_rows (fun row => forall c, In c (row_cstrs no_relax row) -> holds s c)).
+  unfold SPw_axis. rewrite Forall_forall in Hc.
+  assert (Hrel : forall i j k, (i < length alts)%nat -> (j < length alts)%nat -> (k < length alts)%nat ->
+            if (fun _ : N => true) (nth i alts 0%N) && (fun _ : N => true) (nth j alts 0%N) && (fun _ : N => true) (nth k alts 0%N)
+            then eval s (no_relax i j k) = 0 else eval s (no_relax i j k) <= -2) by (intros; reflexivity).
+  split; intros H o Ho; specialize (H o Ho); pose proof (Hc o Ho) as Hco.
+  - apply (order_rows_sem alts axis posn Hnd Hperm Hpos s Hbin Hlf no_relax (fun _ => true) Hrel o Hco) in H.
+    rewrite filter_true, fclasses_true in H; [exact H|]. now destruct Hco as (_ & ? & _).
+  - apply (order_rows_sem alts axis posn Hnd Hperm Hpos s Hbin Hlf no_relax (fun _ => true) Hrel o Hco).
+    rewrite filter_true, fclasses_true; [exact H|]. now destruct Hco as (_ & ? & _).
+Qed.
+End PlainRows.
+
+Lemma SPw_axis_test alts p axis : NoDup alts -> Forall (complete_on alts) p -> Permutation alts axis ->
+  (sp_axis_profile p axis = true <-> SPw_axis p axis).
+Proof.
+  intros Hnd Hc Hp. apply sp_axis_profile_correct; [eapply Permutation_NoDup; eauto|].
+  intros o Ho. rewrite Forall_forall in Hc. destruct (Hc o Ho) as (_ & _ & Hse). eapply same_elems_perm; eauto.
+Qed.
+
+Theorem ilp_sp_sound alts p s : NoDup alts -> Forall (complete_on alts) p ->
+  feasible (sp_ilp alts p) s ->
+  Permutation alts (decode_axis alts s) /\ sp_axis_profile p (decode_axis alts s) = true.
+Proof.
+  intros Hnd Hc Hf. apply feasible_sp_unfold in Hf. destruct Hf as (Hst & _ & Hcons).
+  destruct (decode_placement alts s Hnd Hst) as (Hperm & Hpos & Hlf). split; [assumption|].
+  apply (SPw_axis_test alts p _ Hnd Hc Hperm).
+  apply (cons_cstrs_sem alts _ (posn_of s) s Hnd Hperm Hpos (proj1 Hst) Hlf p Hc). exact Hcons.
+Qed.
+
+Theorem ilp_sp_complete alts p axis : NoDup alts -> Forall (complete_on alts) p ->
+  Permutation alts axis -> sp_axis_profile p axis = true ->
+  exists s, feasible (sp_ilp alts p) s /\ decode_axis alts s = axis.
+Proof.
+  intros Hnd Hc Hperm Hsp.
+  destruct (axis_placement alts axis (fun _ => false) (fun _ => false) Hnd Hperm) as (Hpos & Hst & Htr & Hlf & Hdec).
+  set (s := mk_asg (posn_axis alts axis) (fun _ => false) (fun _ => false)) in *.
+  exists s. split; [|assumption]. apply feasible_sp_unfold. split; [assumption|]. split; [assumption|].
+  apply (cons_cstrs_sem alts axis (posn_axis alts axis) s Hnd Hperm Hpos (proj1 Hst) Hlf p Hc).
+  now apply (SPw_axis_test alts p axis Hnd Hc Hperm).
+Qed.
+
+(* feasibility of the ILP <-> weak single-peakedness: only the solver remains trusted *)
+Theorem ilp_sp_feasible_iff alts p : NoDup alts -> Forall (complete_on alts) p ->
+  ((exists s, feasible (sp_ilp alts p) s) <-> SPw alts p).
+Proof.
+  intros Hnd Hc. split.
+  - intros (s & Hf). destruct (ilp_sp_sound alts p s Hnd Hc Hf) as [Hp Hsp].
+    exists (decode_axis alts s). split; [assumption|]. now apply (SPw_axis_test alts p _ Hnd Hc Hp) in Hsp.
+  - intros (axis & Hp & Hsp). apply (SPw_axis_test alts p axis Hnd Hc Hp) in Hsp.
+    destruct (ilp_sp_complete alts p axis Hnd Hc Hp Hsp) as (s & Hf & _). eauto.
+Qed.
+
+Corollary ilp_sp_model_correct alts p : NoDup alts -> Forall (complete_on alts) p ->
+  ((exists s, feasible (sp_ilp alts p) s) <-> is_single_peaked_ILP_model DTtoc alts p = Ok true).
+Proof.
+  intros Hnd Hc. rewrite (ilp_sp_feasible_iff alts p Hnd Hc), <- (spw_decide_correct alts p Hnd Hc).
+  unfold is_single_peaked_ILP_model. simpl. split; [intros ->; reflexivity|intros E; now injection E].
+Qed.
